@@ -1,6 +1,310 @@
 import Fabio.Driver.Proto
+import Fabio.Model.C08
+/-!
+Driver handlers for C08.  `agree` compares the model with the real code; `spec` evaluates the sentences of
+the property on the implementation's own output with reference functions that do not use the model's
+`addHeaders` (names are matched ignoring ASCII case instead of through `canonicalKey`, the peer is read off
+`RemoteAddr` by a separate three-line splitter, the port of the client's Host by a separate reader).
+-/
 namespace Fabio.Driver.C08
-open Lean Fabio.Driver
+open Lean Fabio Fabio.Driver Fabio.Model.C08
 
-def streams : List (String × Handler) := []
+abbrev SHdrs := List (String × List String)
+
+def s2l (s : String) : Str := s.toList
+def l2s (l : Str) : String := String.ofList l
+
+/-! ### JSON plumbing -/
+
+def getStrD (j : Json) (k : String) : String := (j.getObjValAs? String k).toOption.getD ""
+def getBoolD (j : Json) (k : String) : Bool := (j.getObjValAs? Bool k).toOption.getD false
+def getIntD (j : Json) (k : String) : Int := (j.getObjValAs? Int k).toOption.getD 0
+def getNatD (j : Json) (k : String) : Nat := (j.getObjValAs? Nat k).toOption.getD 0
+def getArrD (j : Json) (k : String) : Array Json :=
+  match j.getObjVal? k with
+  | .ok (.arr a) => a
+  | _ => #[]
+
+def parseWire (j : Json) : List (String × Option String) :=
+  (getArrD j "wire").toList.map fun e =>
+    (getStrD e "k", match e.getObjVal? "v" with
+                    | .ok (.str s) => some s
+                    | _ => none)
+
+def parseHdrs (j : Json) (k : String) : SHdrs :=
+  (getArrD j k).toList.map fun e =>
+    (getStrD e "k", (getArrD e "v").toList.map fun v => match v with | .str s => s | _ => "")
+
+def parseCfg (j : Json) : Cfg :=
+  match j.getObjVal? "cfg" with
+  | .ok c => { clientIPHeader := s2l (getStrD c "cip"), tlsHeader := s2l (getStrD c "tlsh"),
+               tlsHeaderValue := s2l (getStrD c "tlsv"), localIP := s2l (getStrD c "lip"),
+               stsMaxAge := getIntD c "age", stsSubdomains := getBoolD c "sub", stsPreload := getBoolD c "pre",
+               requestID := s2l (getStrD c "reqid") }
+  | _ => {}
+
+def insertSorted (e : String × List String) : SHdrs → SHdrs
+  | [] => [e]
+  | x :: xs => if e.1 < x.1 then e :: x :: xs else x :: insertSorted e xs
+def sortHdrs (h : SHdrs) : SHdrs := h.foldr insertSorted []
+
+def toS (h : Headers) : SHdrs := sortHdrs (h.map fun e => (l2s e.1, e.2.map l2s))
+def hdrsJson (h : SHdrs) : Json :=
+  Json.arr (h.map fun e => Json.mkObj [("k", Json.str e.1), ("v", Json.arr (e.2.map Json.str).toArray)]).toArray
+
+def wireL (w : List (String × Option String)) : List (Str × Option Str) :=
+  w.map fun e => (s2l e.1, e.2.map s2l)
+
+/-! ### reference functions of the specification -/
+
+def lowerS (s : String) : String := l2s (lowerL (s2l s))
+def eqFold (a b : String) : Bool := lowerS a == lowerS b
+
+/-- every value the client sent under `name`, ignoring the casing of the name -/
+def sent (w : List (String × Option String)) (name : String) : List String :=
+  w.filterMap fun e => if eqFold e.1 name then e.2 else none
+/-- the first value the client sent under `name` (`""` when none) -/
+def sentFirst (w : List (String × Option String)) (name : String) : String := (sent w name).headD ""
+/-- every value the upstream receives under `name`, ignoring the casing of the name -/
+def recv (h : SHdrs) (name : String) : List String :=
+  (h.filter fun e => eqFold e.1 name).flatMap (·.2)
+
+/-- peer IP as written in `RemoteAddr`: `[v6]:port` or `v4:port` -/
+def specPeer (remote : String) : String :=
+  match s2l remote with
+  | '[' :: t => l2s (t.takeWhile (· != ']'))
+  | l => l2s (l.takeWhile (· != ':'))
+
+/-- the port the client asked for: `name:port`, `[v6]:port`; `none` when the Host carries no port;
+`some none` = the Host is not of a recognised form (the sentence is not evaluated). -/
+def specHostPort (host : String) : Option (Option String) :=
+  let l := s2l host
+  match l with
+  | '[' :: _ =>
+    let rest := (l.dropWhile (· != ']')).drop 1
+    match rest with
+    | [] => some none
+    | ':' :: p => if p.isEmpty then some none else if p.all Char.isDigit then some (some (l2s p)) else none
+    | _ => none
+  | _ =>
+    let name := l.takeWhile (· != ':')
+    let rest := l.dropWhile (· != ':')
+    match rest with
+    | [] => some none
+    | _ :: p => if p.contains ':' then none
+                else if name.isEmpty || p.isEmpty then some none else some (some (l2s p))
+
+def lastElemS (s : String) : String := l2s (lastElem (s2l s))
+def startsWith (s p : String) : Bool := (s2l p).isPrefixOf (s2l s)
+
+def managedLower : List String :=
+  ["x-forwarded-for", "x-real-ip", "x-forwarded-proto", "x-forwarded-port", "x-forwarded-host",
+   "x-forwarded-prefix", "forwarded", "upgrade"]
+
+structure SpecIn where
+  wire : List (String × Option String)
+  cfg : Cfg
+  peer : String
+  tls : Bool
+  host : String           -- the Host the client asked for
+  out : SHdrs             -- what the upstream received
+  viaReverseProxy : Bool  -- X-Forwarded-For is expected on every request (ReverseProxy appends it)
+  reqid : Option String   -- expected request id value when the header is configured
+
+/-- The sentences of the property, each with a name; returns the names of the failing ones. -/
+def specClauses (s : SpecIn) : List String :=
+  let cip := l2s s.cfg.clientIPHeader
+  let tlsh := l2s s.cfg.tlsHeader
+  let rid := l2s s.cfg.requestID
+  let ws := eqFold (sentFirst s.wire "Upgrade") "websocket"
+  let cipFree := cip != "" && !(managedLower.contains (lowerS cip)) && !(eqFold cip tlsh) && !(eqFold cip rid && rid != "")
+  let tlshFree := tlsh != ""
+  let firstHop := sentFirst s.wire "X-Forwarded-Proto" == "" && sentFirst s.wire "Forwarded" == ""
+      && !(managedLower.contains (lowerS cip) && cip != "") && !(managedLower.contains (lowerS tlsh) && tlsh != "")
+      && !(managedLower.contains (lowerS rid) && rid != "")
+  let nilXFF := s.wire.any fun e => eqFold e.1 "X-Forwarded-For" && e.2.isNone
+  let xff := recv s.out "X-Forwarded-For"
+  let conn := if ws then (if s.tls then "wss" else "ws") else (if s.tls then "https" else "http")
+  let plainOrTls := if s.tls then "https" else "http"
+  let mgd (n : String) : Bool := (cip != "" && eqFold cip n) || (tlsh != "" && eqFold tlsh n) || (rid != "" && eqFold rid n)
+  let c (name : String) (ok : Bool) : List String := if ok then [] else [name]
+  -- the configured client-IP header is overwritten with the peer address
+  c "clientip" (!cipFree || recv s.out cip == [s.peer]) ++
+  -- the peer is the last element of X-Forwarded-For (websocket path by addHeaders, otherwise by ReverseProxy)
+  c "xff" (!(ws || s.viaReverseProxy) || nilXFF || mgd "X-Forwarded-For" ||
+      (xff.length == 1 && lastElemS (xff.headD "") == s.peer)) ++
+  -- X-Real-Ip carries the peer unless the client sent one
+  c "xrealip" (mgd "X-Real-Ip" ||
+      (if sentFirst s.wire "X-Real-Ip" == "" then recv s.out "X-Real-Ip" == [s.peer]
+       else recv s.out "X-Real-Ip" == sent s.wire "X-Real-Ip" || recv s.out "X-Real-Ip" == [s.peer])) ++
+  -- the TLS header is present with the configured value exactly when the connection used TLS
+  c "tlsheader" (!tlshFree ||
+      (if s.tls then recv s.out tlsh == [l2s s.cfg.tlsHeaderValue] else recv s.out tlsh == [])) ++
+  -- X-Forwarded-Proto and Forwarded are supplied when absent and describe the actual connection
+  c "xfproto" (!firstHop || recv s.out "X-Forwarded-Proto" == [plainOrTls]) ++
+  c "forwarded" (!firstHop ||
+      ((recv s.out "Forwarded").length == 1 &&
+        (let f := (recv s.out "Forwarded").headD ""
+         let p := "for=" ++ s.peer ++ "; proto=" ++ conn
+         f == p || startsWith f (p ++ ";")))) ++
+  -- X-Forwarded-Host is the host the client asked for
+  c "xfhost" (mgd "X-Forwarded-Host" || sentFirst s.wire "X-Forwarded-Host" != "" || s.host == "" ||
+      recv s.out "X-Forwarded-Host" == [s.host]) ++
+  -- X-Forwarded-Port is the port of the host the client asked for, else 443/80 by TLS
+  c "xfport" (mgd "X-Forwarded-Port" || sentFirst s.wire "X-Forwarded-Port" != "" ||
+      (match specHostPort s.host with
+       | none => true
+       | some (some p) => recv s.out "X-Forwarded-Port" == [p]
+       | some none => recv s.out "X-Forwarded-Port" == [if s.tls then "443" else "80"])) ++
+  -- request id
+  c "requestid" (match s.reqid with
+      | none => true
+      | some id => rid == "" || managedLower.contains (lowerS rid) || eqFold rid cip || eqFold rid tlsh ||
+                   recv s.out rid == [id])
+
+/-- Strict-Transport-Security only on TLS connections; `expectAdded` = the response is written by fabio
+(not the relayed bytes of a websocket handshake), where it must then be present once when configured. -/
+def stsSpec (cfg : Cfg) (tls expectAdded : Bool) (sts : List String) : Bool :=
+  if !tls || cfg.stsMaxAge ≤ 0 then sts.isEmpty
+  else if expectAdded then sts.length == 1 && startsWith (sts.headD "") "max-age=" else true
+
+/-- Configurations whose names collide (TLS header called X-Forwarded-For, client-IP header called Upgrade,
+the same name for two purposes) or are not header tokens cannot satisfy two sentences at once; for them
+only model agreement is checked. `X-Real-Ip` / `X-Forwarded-For` as client-IP header are regular. -/
+def degenerateCfg (cfg : Cfg) : Bool :=
+  let cip := lowerS (l2s cfg.clientIPHeader)
+  let tlsh := lowerS (l2s cfg.tlsHeader)
+  let rid := lowerS (l2s cfg.requestID)
+  let bad (n : String) := n != "" && !((s2l n).all isTokenChar)
+  (tlsh != "" && managedLower.contains tlsh) || (rid != "" && managedLower.contains rid) ||
+  (cip != "" && managedLower.contains cip && cip != "x-forwarded-for" && cip != "x-real-ip") ||
+  (cip != "" && (cip == tlsh || cip == rid)) || (tlsh != "" && tlsh == rid) ||
+  bad cip || bad tlsh || bad rid
+
+def hostClass (host : String) : String :=
+  if startsWith host "[" then "host-ipv6" else ""
+
+def upgradeClass (w : List (String × Option String)) (tls : Bool) : String :=
+  let u := sentFirst w "Upgrade"
+  if eqFold u "websocket" then
+    (if u == "websocket" then (if tls then "wss" else "ws") else (if tls then "wss-mixedcase" else "ws-mixedcase"))
+  else if tls then "tls" else "plain"
+
+def forgedCount (w : List (String × Option String)) (cfg : Cfg) : Nat :=
+  (w.filter fun e =>
+    let n := lowerS e.1
+    (managedLower.contains n && n != "upgrade") ||
+    (!cfg.clientIPHeader.isEmpty && n == lowerS (l2s cfg.clientIPHeader)) ||
+    (!cfg.tlsHeader.isEmpty && n == lowerS (l2s cfg.tlsHeader))).length
+
+/-! ### c08.unit -/
+
+def unitH : Handler := fun inp impl => do
+  let wire := parseWire inp
+  let cfg := parseCfg inp
+  let host := getStrD inp "host"
+  let remote := getStrD inp "remote"
+  let proto := getStrD inp "proto"
+  let strip := getStrD inp "strip"
+  let tls : Option TLS := match inp.getObjVal? "tls" with
+    | .ok (.obj o) => some { version := getNatD (.obj o) "v", cipher := getNatD (.obj o) "c" }
+    | _ => none
+  let h0 := ofWire (wireL wire)
+  let r : Req := { headers := h0, host := s2l host, remoteAddr := s2l remote, tls := tls, proto := s2l proto }
+  let scheme0 := l2s (scheme h0 tls.isSome)
+  let port0 := l2s (localPort (s2l host) tls.isSome)
+  let (mErr, mHdr, mResp) := match addHeaders cfg (s2l strip) r with
+    | none => (true, ([] : SHdrs), ([] : SHdrs))
+    | some h => (false, toS h, toS (addResponseHeaders cfg tls.isSome []))
+  let model := Json.mkObj [("err", mErr), ("hdr", hdrsJson mHdr), ("resp", hdrsJson mResp),
+                           ("scheme0", scheme0), ("port0", port0)]
+  let iErr := getBoolD impl "err"
+  let iHdr := sortHdrs (parseHdrs impl "hdr")
+  let iResp := sortHdrs (parseHdrs impl "resp")
+  let isPanic := (impl.getObjVal? "panic").toOption.isSome || (impl.getObjVal? "harness_error").toOption.isSome
+  let agree := !isPanic && mErr == iErr && mHdr == iHdr && mResp == iResp &&
+               scheme0 == getStrD impl "scheme0" && port0 == getStrD impl "port0"
+  let failing :=
+    if isPanic then ["panic"] else
+    if iErr || degenerateCfg cfg then [] else
+      specClauses { wire := wire, cfg := cfg, peer := specPeer remote, tls := tls.isSome, host := host,
+                    out := iHdr, viaReverseProxy := false, reqid := none } ++
+      (if stsSpec cfg tls.isSome true (recv iResp "Strict-Transport-Security") then [] else ["sts"])
+  let cls := if iErr then "remote-unparsable" else if degenerateCfg cfg then "config-collision" else
+    let u := upgradeClass wire tls.isSome
+    let hc := hostClass host
+    if hc != "" then u ++ "/" ++ hc else u
+  let tag := match failing with
+    | [] => cls
+    | f :: _ => f ++ "@" ++ cls
+  return ({ model := model, agree := agree, spec := failing.isEmpty,
+            nontrivial := !iErr && forgedCount wire cfg > 0, tag := tag } : Verdict).toJson
+
+/-! ### c08.proxy -/
+
+def proxyH : Handler := fun inp impl => do
+  let wire := parseWire inp
+  let cfg := parseCfg inp
+  let host := getStrD inp "host"
+  let hostOpt := getStrD inp "hostopt"
+  let strip := getStrD inp "strip"
+  let conn := (impl.getObjVal? "conn").toOption.getD Json.null
+  let remote := getStrD conn "remote"
+  let tlsOn := getBoolD conn "tls"
+  let tls : Option TLS := if tlsOn then some { version := getNatD conn "tlsv", cipher := getNatD conn "tlsc" } else none
+  let target := getStrD impl "target"
+  let uuid := "f47ac10b-58cc-0372-8567-0e02b2c3d479"
+  let h0 := ofWire (wireL wire)
+  let r : Req := { headers := h0, host := s2l host, remoteAddr := s2l remote, tls := tls, proto := s2l (getStrD conn "proto") }
+  let peer := specPeer remote
+  -- keys compared between model and implementation: everything this property manages
+  let keys : List String := (["X-Forwarded-For", "X-Real-Ip", "X-Forwarded-Proto", "X-Forwarded-Port", "X-Forwarded-Host",
+      "X-Forwarded-Prefix", "Forwarded"] ++
+      [cfg.clientIPHeader, cfg.tlsHeader, cfg.requestID].filterMap fun k =>
+        if k.isEmpty then none else some (l2s (canonicalKey k))).eraseDups
+  let proj (h : SHdrs) : SHdrs := sortHdrs (h.filter fun e => keys.contains e.1)
+  let isPanic := (impl.getObjVal? "panic").toOption.isSome || (impl.getObjVal? "harness_error").toOption.isSome
+  let iHdr := sortHdrs (parseHdrs impl "hdr")
+  let iSts := (getArrD impl "sts").toList.map fun v => match v with | .str s => s | _ => ""
+  let iHost := getStrD impl "uhost"
+  let status := getNatD impl "status"
+  let reached := getBoolD impl "reached"
+  let m := serve cfg (s2l uuid) (s2l hostOpt) (s2l target) (s2l strip) r
+  let (mHdr, mHost, mSts, mOk) := match m with
+    | none => (([] : SHdrs), "", ([] : List String), false)
+    | some u =>
+      -- websocket upgrades are tunnelled with the headers as they are; everything else goes through
+      -- httputil.ReverseProxy, which drops what the client's Connection header names and then appends the
+      -- peer to X-Forwarded-For (assumption, see Model)
+      let h := if isWebsocket u.headers then u.headers else reverseProxy (s2l peer) u.headers
+      -- http.Transport / Request.Write send the URL's host when Request.Host is empty
+      -- a websocket handshake response is the upstream's bytes relayed over the hijacked connection:
+      -- nothing fabio put into its ResponseWriter's header map is sent
+      (proj (toS h), (if u.host.isEmpty then target else l2s u.host),
+       (if isWebsocket u.headers then [] else recv (toS u.resp) "Strict-Transport-Security"), true)
+  let model := Json.mkObj [("ok", mOk), ("uhost", mHost), ("hdr", hdrsJson mHdr), ("sts", Json.arr (mSts.map Json.str).toArray)]
+  let agree := !isPanic && mOk && reached && proj iHdr == mHdr && iHost == mHost && iSts == mSts
+  let failing :=
+    if isPanic then ["panic"] else
+    if !reached then ["upstream-not-reached"] else
+    if degenerateCfg cfg then [] else
+      specClauses { wire := wire, cfg := cfg, peer := peer, tls := tlsOn, host := host, out := iHdr,
+                    viaReverseProxy := true, reqid := some uuid } ++
+      (if stsSpec cfg tlsOn (!eqFold (sentFirst wire "Upgrade") "websocket") iSts then [] else ["sts"])
+  let u := upgradeClass wire tlsOn
+  let cls := if degenerateCfg cfg then "config-collision" else u ++ (if hostClass host != "" then "/host-ipv6" else "") ++
+    (if hostOpt == "" then "" else if hostOpt == "dst" then "/hostopt-dst" else "/hostopt-literal")
+  -- finding D12d: the client names a header of this property in its Connection header
+  let connNames := (sent wire "Connection").flatMap fun v => (splitComma (s2l v)).map fun t => lowerS (l2s (trimBlanks t))
+  let namesManaged := connNames.any fun n => n != "" && (managedLower.contains n ||
+      n == lowerS (l2s cfg.clientIPHeader) || n == lowerS (l2s cfg.tlsHeader) || n == lowerS (l2s cfg.requestID))
+  let tag := if namesManaged then (if failing.isEmpty then "connection-names-managed-header/ok" else "connection-names-managed-header")
+    else match failing with
+    | [] => cls
+    | f :: _ => f ++ "@" ++ cls
+  let _ := status
+  return ({ model := model, agree := agree, spec := failing.isEmpty,
+            nontrivial := forgedCount wire cfg > 0 || hostOpt != "" || tlsOn, tag := tag } : Verdict).toJson
+
+def streams : List (String × Handler) := [("c08.unit", unitH), ("c08.proxy", proxyH), ("c08.hopbyhop", proxyH)]
 end Fabio.Driver.C08
